@@ -295,10 +295,15 @@ def _as_base_exponent(f):
     if isinstance(f, Power):
         base, exponent = f.ufl_operands
         if isinstance(exponent, ScalarValue) and not isinstance(exponent._value, complex):
-            pair = _as_base_exponent(base)
-            if pair is not None:
-                base, inner = pair
-                return base, inner * exponent._value
+            if float(exponent._value).is_integer():
+                pair = _as_base_exponent(base)
+                if pair is not None:
+                    base, inner = pair
+                    return base, inner * exponent._value
+            else:
+                # (x**a)**b == x**(a*b) only holds for integer b: keep x**a as the base
+                if _as_base_exponent(base) is not None:
+                    return base, exponent._value
         return None
     elif isinstance(f, Division):
         numerator, denominator = f.ufl_operands
